@@ -4,7 +4,8 @@
   op lines:
     zz  <x>                       -> `<enc> <dec>`
     s8b <u64,…>                   -> `I:<words|err> J:… T:… II:<r> IJ:<r> JI:<r> JJ:<r> TI:<r> TJ:<r>`
-    c   <i|u|t|f|b|s> <values>    -> `S:<hex|err> B:<hex|err> SS:<r> SB:<r> BS:<r> BB:<r>`
+    c   <i|u|t|f|b|s> <values>    -> `S:<hex|err> B:<hex|err> SS:<r> SB:<r> BS:<r> BB:<r> DS:<r> DB:<r>`
+                                     (D = the batch encoder handed a dirty oversized buffer)
     blk <i|u|f|b|s> <ts> <values> -> `S:<hex|err> G:<=|differs> B:<hex|err> SS: SG: SB: BS: BG: BB:`
   r = `=` (decoded = input) | `ne:<decoded>` | `err` (decoder error) | `-` (nothing to decode).
   The string codec's compressor is the identity here; the harness replaces the snappy part of the
@@ -118,10 +119,12 @@ def render : Op → Obs → String
     let names := ["II:", "IJ:", "JI:", "JJ:", "TI:", "TJ:"]
     let ds := (names.zip (encs.zip decs)).map fun (n, e, d) => n ++ showR showNats vs e.isSome d
     " ".intercalate (["I:" ++ showWs i, "J:" ++ showWs j, "T:" ++ showWs t] ++ ds)
-  | .codec v, .codec r =>
-    " ".intercalate (["S:" ++ showEnc r.encS, "B:" ++ showEnc r.encB] ++ showRT showVals v false r)
-  | .time ts, .time r =>
-    " ".intercalate (["S:" ++ showEnc r.encS, "B:" ++ showEnc r.encB] ++ showRT showNats ts false r)
+  | .codec v, .codec r ds db =>
+    " ".intercalate (["S:" ++ showEnc r.encS, "B:" ++ showEnc r.encB] ++ showRT showVals v false r ++
+      ["DS:" ++ showR showVals v r.encB.isSome ds, "DB:" ++ showR showVals v r.encB.isSome db])
+  | .time ts, .time r ds db =>
+    " ".intercalate (["S:" ++ showEnc r.encS, "B:" ++ showEnc r.encB] ++ showRT showNats ts false r ++
+      ["DS:" ++ showR showNats ts r.encB.isSome ds, "DB:" ++ showR showNats ts r.encB.isSome db])
   | .block ts v, .block r g sg bg =>
     let prod (e : Option Codec.Bytes) : Bool := match e with | none => false | some b => !b.isEmpty
     match showRT showBlk (ts, v) true r with
@@ -155,11 +158,13 @@ def parseObs (op : Op) (ans : String) : Obs :=
     | .s8b vs, [("I", i), ("J", j), ("T", t), ("II", a), ("IJ", b), ("JI", c), ("JJ", d), ("TI", e), ("TJ", f)] => do
       let ds ← [a, b, c, d, e, f].mapM (parseR parseNats vs)
       some (.s8b (← parseWs i) (← parseWs j) (← parseWs t) ds)
-    | .codec v, [("S", s), ("B", b), ("SS", ss), ("SB", sb), ("BS", bs), ("BB", bb)] =>
+    | .codec v, [("S", s), ("B", b), ("SS", ss), ("SB", sb), ("BS", bs), ("BB", bb), ("DS", ds), ("DB", db)] => do
       let k := match v with | .f _ => "f" | .i _ => "i" | .u _ => "u" | .b _ => "b" | .s _ => "s"
-      (parseRT (parseVals k) v s b ss sb bs bb).map .codec
-    | .time ts, [("S", s), ("B", b), ("SS", ss), ("SB", sb), ("BS", bs), ("BB", bb)] =>
-      (parseRT parseNats ts s b ss sb bs bb).map .time
+      let r ← parseRT (parseVals k) v s b ss sb bs bb
+      some (.codec r (← parseR (parseVals k) v ds) (← parseR (parseVals k) v db))
+    | .time ts, [("S", s), ("B", b), ("SS", ss), ("SB", sb), ("BS", bs), ("BB", bb), ("DS", ds), ("DB", db)] => do
+      let r ← parseRT parseNats ts s b ss sb bs bb
+      some (.time r (← parseR parseNats ts ds) (← parseR parseNats ts db))
     | .block ts v, [("S", s), ("G", g), ("B", b), ("SS", ss), ("SG", sg), ("SB", sb), ("BS", bs), ("BG", bg), ("BB", bb)] => do
       let r ← parseRT (parseBlk v) (ts, v) s b ss sb bs bb
       some (.block r (g == "=") (← parseR (parseBlk v) (ts, v) sg) (← parseR (parseBlk v) (ts, v) bg))
@@ -178,7 +183,7 @@ def hasNaN : Op → Bool
 
 /-- encoders refused the input (and nothing else went wrong) -/
 def onlyRejected : Obs → Bool
-  | .codec r => r.encS.isNone && r.encB.isNone
+  | .codec r _ _ => r.encS.isNone && r.encB.isNone
   | .block r _ _ _ => r.encS.isNone && r.encB.isNone
   | _ => false
 
